@@ -1,11 +1,8 @@
 import GontainerModel.Props.C04
-#print axioms GM.C04.tagLe_trans
-#print axioms GM.C04.tagLe_total
 #print axioms GM.C04.tagged_exact
 #print axioms GM.C04.tagged_mem
 #print axioms GM.C04.tagged_sorted
 #print axioms GM.C04.decorators_in_declaration_order
-#print axioms GM.C04.compileDecorators_fold
 #print axioms GM.C04.decorator_order_compiled
 #print axioms GM.C04.decorator_order_across_files
 #print axioms GM.C04.tags_copied
